@@ -894,13 +894,13 @@ Section Main.
   Proof.
     intros Htf Hd Hi. destruct t as [T|]; simpl; auto.
     unfold type_filter, type_filter_needed in Htf. rewrite Hd in Htf. simpl in Htf.
-    apply negb_false_iff in Htf. eapply Htrans; eauto.
+    apply orb_false_iff in Htf. destruct Htf as [_ Htf]. apply negb_false_iff in Htf. eapply Htrans; eauto.
   Qed.
-  Lemma filter_has_type oc a t d : type_filter C oc a t = true -> f_type C oc a = Some d -> exists T, t = Some T.
-  Proof.
-    intros Htf Hd. unfold type_filter, type_filter_needed in Htf. rewrite Hd in Htf. destruct t; eauto. discriminate.
-  Qed.
-
+  (* the type HasType tests: the written one, or the declared one for an untyped match on an Optional attribute; for
+     values of the declared type it decides exactly the Spec's type constraint *)
+  Definition ftype (t : option cls) (d : cls) : cls := match t with Some T => T | None => d end.
+  Lemma filter_type_ok t d o' : inst o' d -> sub C (otype M o') (ftype t d) = type_ok (sub C) M t o'.
+  Proof. intros Hi. destruct t; simpl; auto. Qed.
   Lemma fresh_nested e ein pa pv a' : fresh e pa -> under pa pv ->
     (forall x, lookup e x = None -> lookup ein x <> None -> psize x <= psize pv) -> fresh ein (PAttr pv a').
   Proof.
@@ -966,7 +966,7 @@ Section Main.
     unfold nested_filter, nested_var in *.
     destruct (f_iter C oc a) eqn:Hit; destruct (type_filter C oc a t) eqn:Htf; unfold resolve_flatten in *; cbn [andb orb] in *.
     - (* collection attribute, type filter *)
-      rewrite orb_true_r in *. destruct (filter_has_type oc a t d Htf Hd) as [T ->].
+      rewrite orb_true_r in *. change (match t with Some T => T | None => d end) with (ftype t d). set (T := ftype t d) in *.
       destruct Ht as [xs [Hav Hxs]].
       rewrite Hav, lax_match_coll. cbv zeta. unfold nested_var. rewrite Hd, Hit, Htf. unfold resolve_flatten.
       cbn [dflt andb orb negb]. rewrite orb_true_r.
@@ -987,9 +987,10 @@ Section Main.
         destruct (Hnest ox Hox) as [[Hc1 _] Hc2]. destruct (Hc1 e' Hin) as [? _]. destruct (Hc2 e' Hin). auto.
       + rewrite existsb_exists. split.
         * intros [e' Hin]. apply Hmem in Hin. destruct Hin as [ox [Hox [Hty' Hin]]]. exists ox. split; auto.
-          cbn [type_ok]. rewrite Hty'. simpl.
+          rewrite <- (filter_type_ok t d ox (Hxs ox Hox)). fold T. rewrite Hty'. simpl.
           destruct (Hnest ox Hox) as [[_ Hc] _]. apply Hc. apply nonempty_ex. eauto.
         * intros [ox [Hox Hm]]. apply andb_true_iff in Hm. destruct Hm as [Hty' Hm].
+          rewrite <- (filter_type_ok t d ox (Hxs ox Hox)) in Hty'. fold T in Hty'.
           destruct (Hnest ox Hox) as [[_ Hc] _]. apply Hc in Hm. apply nonempty_ex in Hm. destruct Hm as [e' Hin].
           exists e'. apply Hmem. eauto.
     - (* collection attribute, no type filter *)
@@ -1038,12 +1039,13 @@ Section Main.
           destruct (Hnest ox Hox) as [[_ Hc] _]. apply Hc in Hm. apply nonempty_ex in Hm. destruct Hm as [e' Hin].
           exists e'. apply Hmem. eauto.
     - (* one-to-one attribute, type filter *)
-      destruct (filter_has_type oc a t d Htf Hd) as [T ->]. rewrite Hobj in Ht. destruct Ht as [o' [Hav Ho']].
+      change (match t with Some T => T | None => d end) with (ftype t d). set (T := ftype t d) in *.
+      rewrite Hobj in Ht. destruct Ht as [o' [Hav Ho']].
       rewrite Hav, lax_match_obj. unfold nested_var. rewrite Hd, Hit. unfold resolve_flatten. cbn [dflt andb].
       set (cs := tr_alist C d (PAttr p a) l') in *.
       destruct (has_attr T e p a o Hg Hp Hf) as [_ Heq].
       pose proof (nest_attr l' IH d p a e o o' Hg Hp Hf Hav Ho' Hal) as Hnest. fold cs in Hnest.
-      cbn [type_ok].
+      rewrite <- (filter_type_ok t d o' Ho'). fold T.
       unfold concl. rewrite eval_all_app, Heq. rewrite Hav. cbn [isinst].
       destruct (sub C (otype M o') T); simpl.
       + rewrite app_nil_r. rewrite Hav in Hnest. destruct Hnest as [[Hc1 Hc2] Hc3]. split; auto.
@@ -1407,8 +1409,11 @@ Section Main.
     unfold nested_filter, nested_var in *.
     destruct (f_iter C oc a) eqn:Hit; destruct (type_filter C oc a t) eqn:Htf; unfold resolve_flatten in *; cbn [andb orb] in *.
     - (* collection, type filter *)
-      rewrite orb_true_r in *. destruct (filter_has_type oc a t d Htf Hd) as [T ->].
+      rewrite orb_true_r in *. change (match t with Some T => T | None => d end) with (ftype t d). set (T := ftype t d) in *.
       destruct Ht as [xs [Hav Hxs]]. rewrite Hav, srows_pat_coll.
+      rewrite (flat_map_ext_in _ (fun x => guard ((fun ox => sub C (otype M ox) T) x)
+                 (map (app (cols s [VLO xs; VO x])) ((fun ox => srows_alist (sub C) M l' ox) x))) xs).
+      2:{ intros x Hx. rewrite <- (filter_type_ok t d x (Hxs x Hx)). reflexivity. }
       apply (rows_coll s _ (tr_alist C d (PFlat (PAttr p a)) l') _ (fun ox => sub C (otype M ox) T)
                (fun ox => srows_alist (sub C) M l' ox) p a e o xs Hg Hp Hav).
       + apply mem_coll_filter; auto.
@@ -1435,12 +1440,13 @@ Section Main.
         destruct (nest_flat l' IH d p a e o xs ox Hg Hp Hf Hav Hox (Hxs ox Hox) Hal0) as [[Hc1 _] Hc2].
         destruct (Hc1 e' Hin) as [? [? _]]. destruct (Hc2 e' Hin). auto.
     - (* one-to-one, type filter *)
-      destruct (filter_has_type oc a t d Htf Hd) as [T ->]. rewrite Hobj in Ht. destruct Ht as [o' [Hav Ho']].
-      rewrite Hav, srows_pat_obj.
+      change (match t with Some T => T | None => d end) with (ftype t d). set (T := ftype t d) in *.
+      rewrite Hobj in Ht. destruct Ht as [o' [Hav Ho']].
+      rewrite Hav, srows_pat_obj. rewrite <- (filter_type_ok t d o' Ho'). fold T.
       destruct (has_attr T e p a o Hg Hp Hf) as [_ Heq].
       destruct (nest_attr_hyps p a e o Hg Hp Hf) as [Hg1 [Hl1 Hf1]].
-      apply (rows_one s _ (tr_alist C d (PAttr p a) l') _ (type_ok (sub C) M (Some T) o') (srows_alist (sub C) M l' o') p a e o o' Hg Hp Hav).
-      + intros e'. rewrite eval_all_app, Heq, Hav. cbn [isinst type_ok].
+      apply (rows_one s _ (tr_alist C d (PAttr p a) l') _ (sub C (otype M o') T) (srows_alist (sub C) M l' o') p a e o o' Hg Hp Hav).
+      + intros e'. rewrite eval_all_app, Heq, Hav. cbn [isinst].
         destruct (sub C (otype M o') T); simpl; [rewrite app_nil_r; rewrite <- Hav; tauto|]. split; [tauto|intros [? _]; discriminate].
       + apply IHr; auto. rewrite Hl1, Hav. reflexivity.
       + intros e' Hin. destruct (nest_attr l' IH d p a e o o' Hg Hp Hf Hav Ho' Hal0) as [[Hc1 _] Hc2].
